@@ -50,7 +50,7 @@ static void phr_from_idx(const unsigned idx[16], int li, struct phr *p, int use_
  * G0 leading space, G1 trailing space, G2 two trailing spaces, G3 17th token, G4 drop last token, G5 trailing ideographic space */
 static int NM;           /* menu size in use */
 #define NLOCAL (NM + 11)
-#define NGLOBAL 6
+#define NGLOBAL 8
 static void deviate(struct phr *p, int pos, int d) {
     if (d < NM) strcpy(p->tok[pos], MENU[d]);
     else if (d == NM) strcpy(p->tok[pos], "qzqzq");
@@ -69,6 +69,8 @@ static void deviate(struct phr *p, int pos, int d) {
         case 3: strcpy(p->tok[16], p->tok[0]); strcpy(p->sep[16], " "); p->ntok = 17; break;
         case 4: p->ntok = 15; break;
         case 5: strcpy(p->trail, "\xE3\x80\x80"); break;
+        case 6: case 7: { /* token 8 cut to four bytes (a valid abbreviation where the list allows it), token 13 = those four bytes + letters no word has (6), or + the rest of another word (7) */
+            char pre[8]; memcpy(pre, p->tok[7], 4); pre[4] = 0; if (strlen(p->tok[7]) >= 4 && !(pre[3] & 0x80)) { strcpy(p->tok[7], pre); snprintf(p->tok[12], 64, "%s%s", pre, d - NLOCAL == 6 ? "zzz" : "rolling"); } } break;
     }
 }
 
@@ -128,6 +130,7 @@ static void build_bases(void) {
 static uint8_t ROWS[192];
 static int row_of(int wc, int nl, int ck, int af, int uf, int dec) { return ((((wc * 3 + nl) * 2 + ck) * 2 + af) * 2 + uf) * 2 + dec; }
 
+static struct res *SHORT_RES;
 struct combo { unsigned coin; unsigned mask; int fail; };
 static const struct combo COMBOS[] = { { 0, 7, 0 }, { 0, 0, 1 }, { 1, 7, 0 }, { 0, 0, 0 }, { 0, 7, 1 }, { 2047, 5, 1 } };
 static int NCOMBO = 2;
@@ -230,6 +233,12 @@ int main(int argc, char **argv) {
     }
     build_menu(); build_bases();
     NCOMBO = G_thorough ? 4 : 2;
+    /* sixteen tokens that are as short as tokens get (the count is right, so the answer is about the language) */
+    { static const char *SHORT16[] = { "a b c d e f g h i j k l m n o p", "               ", "x x x x x x x x x x x x x x x x", "ab cd ef gh ij kl mn op qr st uv wx yz ab cd ef",
+                                       "act add age aim air all and any ape arm art ask bag bar bed x", "\xE7\x9A\x84 \xE4\xB8\x80 \xE6\x98\xAF \xE5\x9C\xA8 \xE4\xB8\x8D \xE4\xBA\x86 \xE6\x9C\x89 \xE5\x92\x8C \xE4\xBA\xBA \xE8\xBF\x99 \xE4\xB8\xAD \xE5\xA4\xA7 \xE4\xB8\xBA \xE4\xB8\x8A \xE4\xB8\xAA x" };
+      struct res *rs_ = calloc(1, sizeof *rs_);
+      for (unsigned q = 0; q < sizeof SHORT16 / sizeof *SHORT16; q++) for (int c = 0; c < 2; c++) run_string(SHORT16[q], &COMBOS[c], rs_, 9000000 + q * 8 + (unsigned)c, "short16");
+      SHORT_RES = rs_; }
     /* jobs: base itself, all single deviations (full menu), pairs */
     for (int b = 0; b < NBASE; b++) {
         NM = NMENU;
@@ -264,6 +273,7 @@ int main(int argc, char **argv) {
     (void)rowlist;
     char note[300]; snprintf(note, sizeof note, "%d bases, token menu of %d recognition classes (+unknown, empty), %ld single-deviation strings x 6 combinations, %ld pair strings x %d combinations; each string decoded automatically and explicitly in all 10 languages", NBASE, NMENU, nsingle, NJ - nsingle, NCOMBO);
     out_part("bounded-deviation strings x (coin, mask, allocation) combinations", r, CLS, note);
+    if (SHORT_RES) out_part("sixteen shortest-possible tokens (one or two letters, empty, one ideograph)", SHORT_RES, CLS, "a correct word count is never reported as a wrong one");
     { int feas = 0; for (int wc = 0; wc < 2; wc++) for (int nl = 0; nl < 3; nl++) for (int ck = 0; ck < 2; ck++) for (int uf = 0; uf < 2; uf++) for (int dec = 0; dec < 2; dec++) {
           if (wc && (nl || ck || uf)) continue; if (dec && nl == 2) continue; if (nl != 1 && (ck || uf)) continue; if (ck && uf) continue; feas += 2; /* x allocation ok/fails */ }
       out_kv_int("decision_rows_feasible", feas); }
